@@ -13,14 +13,14 @@ inductive Stack | tlcp | dtlcp
 def paramsOf : Stack → Params
   | .tlcp =>
     { skxMandatory := Facts.tlcp.caSkxMandatory, minCerts := Facts.tlcp.caMinCerts,
-      verifiedIdx := Facts.tlcp.caVerifiedIdx, resumeReverify := Facts.tlcp.caResumeReverifies,
+      verifiedIdx := Facts.tlcp.caVerifiedIdx, fullCallbacks := Facts.tlcp.caFullCallbacks, resumeReverify := Facts.tlcp.caResumeReverifies,
       resumeMinCerts := Facts.tlcp.caResumeMinCerts, resumeIdx := Facts.tlcp.caResumeVerifiedIdx,
       fullSteps := Facts.tlcp.caFullSteps, resumeSteps := Facts.tlcp.caResumeSteps,
       evictWipes := Facts.tlcp.caEvictWipesSecret, evictDrops := Facts.tlcp.caEvictDropsSecret,
       loadClones := Facts.tlcp.caLoadSessionClones, secretGuard := Facts.tlcp.caResumeSecretGuard }
   | .dtlcp =>
     { skxMandatory := Facts.dtlcp.caSkxMandatory, minCerts := Facts.dtlcp.caMinCerts,
-      verifiedIdx := Facts.dtlcp.caVerifiedIdx, resumeReverify := Facts.dtlcp.caResumeReverifies,
+      verifiedIdx := Facts.dtlcp.caVerifiedIdx, fullCallbacks := Facts.dtlcp.caFullCallbacks, resumeReverify := Facts.dtlcp.caResumeReverifies,
       resumeMinCerts := Facts.dtlcp.caResumeMinCerts, resumeIdx := Facts.dtlcp.caResumeVerifiedIdx,
       fullSteps := Facts.dtlcp.caFullSteps, resumeSteps := Facts.dtlcp.caResumeSteps,
       evictWipes := Facts.dtlcp.caEvictWipesSecret, evictDrops := Facts.dtlcp.caEvictDropsSecret,
